@@ -77,7 +77,7 @@ def run_update_projects(rep, tier, seed, focus, model_ok=True, effort=1, legacy_
     from . import impl
     r = common.rng(seed, "rw", focus)
     scripted = rwgen.scripted_specs()
-    n = (45 if tier == "quick" else 700) * effort + len(rwgen.CORPUS_PATTERNS) + len(scripted)
+    n = (45 if tier == "quick" else 4000) * effort + len(rwgen.CORPUS_PATTERNS) + len(scripted)
     items, meta = [], []
     for i0 in range(n):
         i = i0 - len(scripted)
@@ -111,7 +111,7 @@ def run_update_projects(rep, tier, seed, focus, model_ok=True, effort=1, legacy_
                                              entries=sorted(set(f.group or f.path for f in spec["files"])), error=str(cerr)[:300]), **{"class": "unexpected-failure"})
                 continue
             before = prj.snapshot()
-            nd = spec["date"] + dt.timedelta(days=r.choice([1, 40, 400]))
+            nd = rwgen.avoid_week53(spec["vp"], spec["date"] + dt.timedelta(days=r.choice([1, 40, 400])))
             args = ["update", "--no-fetch", "--date", nd.isoformat()] + spec["flags"]
             code, out, logs, exc = prj.run(impl, args)
             after = prj.snapshot()
